@@ -847,8 +847,8 @@ def t2(ctx):
                    True, explore, fan_out(st1, [1]), reported, kf)
     # ---- every history of 2 operations
     if thorough:
-        st = _starts(list(shapes_upto(4)), ["dyadic", "none", "onemissing"], R3)
-        _run_scope(ctx, "histories<=2", "every sequence of <=2 operations from every ordered shape with <=4 leaves x {dyadic, none, onemissing} x 3 rooting "
+        st = _starts(list(shapes_upto(4)), ["dyadic", "none"], R3)
+        _run_scope(ctx, "histories<=2", "every sequence of <=2 operations from every ordered shape with <=4 leaves x {dyadic, none} x 3 rooting "
                    "states; first operation: every target, options {defaults, all flipped}, taxon subsets of size 1 and n-1; second operation: the same "
                    "menu on the tree reached; non-trivial = length-2 histories", True, explore, fan_out(st, [1, 1]), reported, kf)
     else:
@@ -861,14 +861,14 @@ def t2(ctx):
                    "shape with 4 leaves x {dyadic undefined rooting, no lengths rooted}", True, explore, fan_out(st, [0, 0]), reported, kf)
     # ---- every history of 3 (thorough: also 4) operations
     if thorough:
-        st = _starts(list(shapes_upto(3, 2)), ["dyadic", "none"], (None, True))
+        st = _starts(list(shapes_upto(3, 2)), ["dyadic"], (None,))
         _run_scope(ctx, "histories<=3", "every sequence of <=3 operations with default options (every target, single-taxon subsets) from every ordered "
-                   "shape with 2..3 leaves x {dyadic, none} x {undefined, rooted}", True, explore, fan_out(st, [0, 0, 0]), reported, kf)
+                   "shape with 2..3 leaves (dyadic lengths, rooting undefined)", True, explore, fan_out(st, [0, 0, 0]), reported, kf)
         st = _starts(list(shapes_exact(4)), ["dyadic"], (None,))
         _run_scope(ctx, "histories<=3@4mini", "every sequence of <=3 operations over the representative menu (one operation per family, default options, "
                    "every target) from every ordered shape with 4 leaves", True, explore, fan_out(st, [-1, -1, -1]), reported, kf)
-        st = _starts(list(shapes_upto(3, 2)), ["dyadic"], (None,))
-        _run_scope(ctx, "histories<=4@mini", "every sequence of <=4 operations over the representative menu from every ordered shape with 2..3 leaves",
+        st = _starts([((), ()), ((), (), ())], ["dyadic"], (None,))
+        _run_scope(ctx, "histories<=4@mini", "every sequence of <=4 operations over the representative menu from (A,B) and (A,B,C)",
                    True, explore, fan_out(st, [-1, -1, -1, -1]), reported, kf)
     else:
         st = _starts(list(shapes_upto(3, 2)), ["dyadic"], (None,)) + _starts(list(shapes_exact(3)), ["none"], (True,))
